@@ -16,7 +16,8 @@ import IrVerif.Lemmas.SemDedup
 import IrVerif.Lemmas.SemOutputFix
 import IrVerif.Lemmas.SemLsi
 import IrVerif.Lemmas.SemPerm
-import IrVerif.Lemmas.InlineTop
+import IrVerif.Lemmas.InlineFuncs
+import IrVerif.Lemmas.InlineCoh
 namespace IrVerif.Passes
 open IrVerif.Sem
 variable {Val : Type}
@@ -574,6 +575,89 @@ theorem C05_call_depth (m : FModel) (hv : validF m = true) {Val : Type} (I : Int
   exact congrFun (evalGF_congrΦ I _ _ (lvl m.funcs m.funcs.length)
     (fun op hop => fenv_stable I m.funcs _ op hop d hd) [] m.graph Env.empty (hall m.graph)) xs
 
+/-- what the call sites need of the function table of a valid model, at an unrolling depth that covers every
+    call tree -/
+theorem tblOK_of_valid (m : FModel) (hv : validF m = true) {Val : Type} (I : Interp Val) (k d : Nat)
+    (hk : ∀ f ∈ m.funcs, lvl m.funcs k f.id = true) (hkd : k ≤ d) : TblOK I (fenv I m.funcs d) m.funcs := by
+  simp only [validF, Bool.and_eq_true, List.all_eq_true, decide_eq_true_eq, Option.isNone_iff_eq_none] at hv
+  obtain ⟨⟨⟨⟨⟨⟨hid, hvm⟩, _⟩, _⟩, _⟩, hcf⟩, hfb⟩ := hv
+  simp only [validModel, eraseModel, Bool.and_eq_true, List.all_eq_true, List.mem_map, forall_exists_index,
+    and_imp, forall_apply_eq_imp_iff₂] at hvm
+  refine ⟨fun op f hf => fenv_unfold I m.funcs k hk hkd hf, fun op f hf => (hfb f (findFunc_some hf).1).1,
+    fun op f hf => (hfb f (findFunc_some hf).1).2, fun op f hf => ?_, fun op f hf => hcf f (findFunc_some hf).1,
+    hid, fenv_none I m.funcs d hid⟩
+  have := ((validG_iff _).1 (hvm.2 f (findFunc_some hf).1)).2.1
+  simp only [Func.graph, eraseG, closedG, Bool.and_eq_true] at this
+  exact this.2
+
+/-- `_inline_calls_in` on the main graph of a valid model (any criteria, nested calls to any depth): the
+    denotation under the function table of the model is unchanged; so is the number of outputs -/
+theorem inline_main_sound (crit : OpId → Bool) (m : FModel) (hv : validF m = true) (k : Nat)
+    (hk : ∀ f ∈ m.funcs, lvl m.funcs k f.id = true) :
+    (∀ (Val : Type) (I : Interp Val) (d : Nat), k ≤ d →
+      evalGF I (fenv I m.funcs d) [] m.graph Env.empty =
+        evalGF I (fenv I m.funcs d) [] (inlG m.funcs crit (inlAt m.funcs crit m.funcs.length)
+          ⟨freshF m, [], 0, false, false⟩ [] m.graph).2 Env.empty) ∧
+    (inlG m.funcs crit (inlAt m.funcs crit m.funcs.length) ⟨freshF m, [], 0, false, false⟩ [] m.graph).2.outputs.length =
+      m.graph.outputs.length ∧
+    freshF m ≤ (inlG m.funcs crit (inlAt m.funcs crit m.funcs.length) ⟨freshF m, [], 0, false, false⟩ [] m.graph).1.next := by
+  have hv' := hv
+  simp only [validF, Bool.and_eq_true, List.all_eq_true, decide_eq_true_eq] at hv'
+  obtain ⟨⟨⟨⟨⟨⟨_, hvm⟩, _⟩, _⟩, hcg⟩, _⟩, _⟩ := hv'
+  simp only [validModel, eraseModel, Bool.and_eq_true, List.all_eq_true, List.mem_map, forall_exists_index,
+    and_imp, forall_apply_eq_imp_iff₂] at hvm
+  obtain ⟨hvg, _⟩ := hvm
+  rw [validG_iff] at hvg
+  have hbound : ∀ v, (v ∈ refsG (eraseG m.graph) ∨ v ∈ defsG (eraseG m.graph)) → v < freshF m := by
+    intro v hv
+    refine lt_freshId_of_mem (eraseModel m) ?_
+    simp only [eraseModel, List.mem_append]
+    rcases hv with h | h
+    · exact Or.inl (Or.inl (Or.inl h))
+    · exact Or.inl (Or.inl (Or.inr h))
+  refine ⟨fun Val I d hd => ?_, ?_, ?_⟩
+  · have ht := tblOK_of_valid m hv I k d hk hd
+    exact (inlG_sound I (fenv I m.funcs d) [] m.funcs crit _ (freshF m) ht (deepOK_inlAt I _ [] m.funcs crit ht _)
+      m.graph [] ⟨freshF m, [], 0, false, false⟩ Env.empty Env.empty (fun v _ => by rw [Subst.app_nil])
+      (fun p hp => by simp at hp) hvg.1 hvg.2.1 hvg.2.2.1 (fun v hv => hbound v (Or.inl hv))
+      (fun v hv => hbound v (Or.inr hv)) (Nat.le_refl _) (fun p hp => by simp at hp) hcg).1
+  rotate_left
+  · have hI : Interp Unit := ⟨fun _ _ _ _ _ => [], fun _ => ()⟩
+    have ht := tblOK_of_valid m hv hI k k hk (Nat.le_refl _)
+    exact (inlG_sound hI (fenv hI m.funcs k) [] m.funcs crit _ (freshF m) ht (deepOK_inlAt hI _ [] m.funcs crit ht _)
+      m.graph [] ⟨freshF m, [], 0, false, false⟩ Env.empty Env.empty (fun v _ => by rw [Subst.app_nil])
+      (fun p hp => by simp at hp) hvg.1 hvg.2.1 hvg.2.2.1 (fun v hv => hbound v (Or.inl hv))
+      (fun v hv => hbound v (Or.inr hv)) (Nat.le_refl _) (fun p hp => by simp at hp) hcg).2
+  · cases hg : m.graph with
+    | mk inputs outputs inits nodes =>
+      rw [hg] at hvg hbound hcg
+      simp only [inlG, FGraph.outputs]
+      simp only [eraseG, ssaG, Bool.and_eq_true] at hvg
+      have hI : Interp Unit := ⟨fun _ _ _ _ _ => [], fun _ => ()⟩
+      have ht := tblOK_of_valid m hv hI k k hk (Nat.le_refl _)
+      simp only [callsOKG] at hcg
+      have hc := hvg.2.1
+      simp only [eraseG, closedG, Bool.and_eq_true] at hc
+      have hf := hvg.2.2.1
+      simp only [eraseG, noFwdG] at hf
+      have key := inlNodes_sound hI (fenv hI m.funcs k) [] m.funcs crit (inlAt m.funcs crit m.funcs.length)
+        (freshF m) ht (deepOK_inlAt hI _ [] m.funcs crit ht _) nodes [] outputs ⟨freshF m, [], 0, false, false⟩
+        Env.empty Env.empty (fun v _ => by rw [Subst.app_nil]) (fun p hp => by simp at hp) hvg.1.2 hc.2 hf
+        (fun v hv => hbound v (Or.inl (by simp only [eraseG, refsG, List.mem_append]; exact Or.inr hv)))
+        (fun v hv => hbound v (Or.inr (by simp only [eraseG, defsG, List.mem_append]; exact Or.inr hv)))
+        (Nat.le_refl _) (fun p hp => by simp at hp) hcg
+      have hmapnil : outputs.map (Subst.app []) = outputs := by
+        conv => rhs; rw [← List.map_id outputs]
+        apply List.map_congr_left
+        intro v _; exact Subst.app_nil v
+      rw [hmapnil] at key
+      rw [key.2.1, List.length_map]
+
+theorem inlG_inputs_inits (tbl : List Func) (crit : OpId → Bool) (deeper : Deeper) (st : ISt) (σ : Subst) (g : FGraph) :
+    (inlG tbl crit deeper st σ g).2.inputs = g.inputs ∧ (inlG tbl crit deeper st σ g).2.inits = g.inits := by
+  cases g with
+  | mk inputs outputs inits nodes => simp [inlG, FGraph.inputs, FGraph.inits]
+
 /-- **C05_inline_partial** — InlinePass (any `criteria`) on models whose function bodies contain no calls to
     model-local functions (`flatFuncs`: single-level calls).  Covered: any number of calls, in the main
     graph and in subgraphs at any depth; attribute parameters with and without defaults, reference
@@ -584,18 +668,14 @@ theorem C05_call_depth (m : FModel) (hv : validF m = true) {Val : Type} (I : Int
     For every operator interpretation, every unrolling depth `d ≥ 1` and every input the inlined model
     denotes the same outputs; the main graph keeps its inputs, initializers and number of outputs.
 
-    Excluded by `validF` (`callOK`): function outputs that are function inputs (D300: the repaired pass forwards
-    them through an Identity node; oracle only), stochastic operators in function bodies.
-    FULL STATEMENT (not proved): the same without `hflat`, i.e. for functions calling functions to any depth
-    (`validF` already requires a non-recursive call graph).  The model covers that case (the nodes cloned for
-    a call are processed by `inlAt`), `inlNodes_sound` is proved for any processing of the cloned nodes that
-    satisfies `DeepId`; MISSING is the proof that the clone of a valid function body is again SSA /
-    topologically ordered with ids in the fresh interval, which the induction over the unrolling budget needs
-    in order to process cloned call nodes.  Nested calls are covered by the correspondence and the evaluation
-    oracle only.
-    That no call to a deleted function remains and that the unrolling budget suffices is evaluated by the
-    model on its own result (`inlineModel` falls back to the unchanged model otherwise; the driver reports the
-    fallback and the check fails on it), not proved. -/
+    Since the second deepening round `validF` no longer excludes function outputs that are function inputs
+    (D300: the repaired pass forwards them through an Identity node, and so does `instantiate`).
+    Still excluded by `validF`: stochastic operators in function bodies.
+    FULL STATEMENT: the same without `hflat`, i.e. for functions calling functions to any depth: `C05_inline` below
+    (for depths `d ≥ number of functions`; this theorem, for call-free function bodies, holds from depth 1).
+    When the real pass raises (a call does not supply a function input that the function returns), when a call
+    to a deleted function or a call that the criterion accepts would remain, or when the unrolling budget does not
+    suffice, `inlineModel` answers with the unchanged model (`runOK`; the driver reports the flags). -/
 theorem C05_inline_partial (crit : OpId → Bool) (m : FModel) (hv : validF m = true) (hflat : flatFuncs m = true) :
     (∀ (Val : Type) (I : Interp Val) (d : Nat), 1 ≤ d → ∀ xs : List Val,
       denoteAt d I (inlineModel crit m) xs = denoteAt d I m xs) ∧
@@ -603,119 +683,233 @@ theorem C05_inline_partial (crit : OpId → Bool) (m : FModel) (hv : validF m = 
     (inlineModel crit m).graph.inputs = m.graph.inputs ∧ (inlineModel crit m).graph.inits = m.graph.inits := by
   have hv' := hv
   simp only [validF, Bool.and_eq_true, List.all_eq_true, decide_eq_true_eq] at hv'
-  obtain ⟨⟨⟨⟨⟨hvm, hnd⟩, _⟩, hcg⟩, _⟩, hfb⟩ := hv'
+  obtain ⟨⟨⟨⟨⟨⟨_, _⟩, hnd⟩, _⟩, _⟩, _⟩, _⟩ := hv'
   have hflat' : FlatTbl m.funcs := by
     intro f hf
     simp only [flatFuncs, List.all_eq_true] at hflat
     exact hflat f hf
-  simp only [validModel, eraseModel, Bool.and_eq_true, List.all_eq_true, List.mem_map, forall_exists_index,
-    and_imp, forall_apply_eq_imp_iff₂] at hvm
-  obtain ⟨hvg, hvfs⟩ := hvm
-  rw [validG_iff] at hvg
+  have hl1 : ∀ f ∈ m.funcs, lvl m.funcs 1 f.id = true := by
+    intro f hf
+    rw [lvl]
+    split
+    · rfl
+    · rename_i f' hf'
+      rw [lvl_zero_eq]
+      exact hflat' f' (findFunc_some hf').1
   have hrun : (inlineRun crit m).model =
-      ⟨(inlG m.funcs crit (inlAt m.funcs crit m.funcs.length) ⟨freshF m, [], 0, false⟩ [] m.graph).2,
+      ⟨(inlG m.funcs crit (inlAt m.funcs crit m.funcs.length) ⟨freshF m, [], 0, false, false⟩ [] m.graph).2,
         m.funcs.filter (fun f => !(inlG m.funcs crit (inlAt m.funcs crit m.funcs.length)
-          ⟨freshF m, [], 0, false⟩ [] m.graph).1.inlined.contains f.id), m.domains⟩ ∧
-      (inlineRun crit m).st = (inlG m.funcs crit (inlAt m.funcs crit m.funcs.length) ⟨freshF m, [], 0, false⟩ [] m.graph).1 := by
+          ⟨freshF m, [], 0, false, false⟩ [] m.graph).1.inlined.contains f.id), m.domains⟩ ∧
+      (inlineRun crit m).st = (inlG m.funcs crit (inlAt m.funcs crit m.funcs.length) ⟨freshF m, [], 0, false, false⟩ [] m.graph).1 := by
     refine ⟨?_, ?_⟩ <;> simp only [inlineRun, inlFuncs_flat crit _ m.funcs hnd hflat']
-  have hbound : ∀ v, (v ∈ refsG (eraseG m.graph) ∨ v ∈ defsG (eraseG m.graph)) → v < freshF m := by
-    intro v hv
-    refine lt_freshId_of_mem (eraseModel m) ?_
-    simp only [eraseModel, List.mem_append]
-    rcases hv with h | h
-    · exact Or.inl (Or.inl (Or.inl h))
-    · exact Or.inl (Or.inl (Or.inr h))
-  have hsound : ∀ (Val : Type) (I : Interp Val) (d : Nat), 1 ≤ d →
-      evalGF I (fenv I m.funcs d) [] m.graph Env.empty =
-        evalGF I (fenv I m.funcs d) [] (inlG m.funcs crit (inlAt m.funcs crit m.funcs.length)
-          ⟨freshF m, [], 0, false⟩ [] m.graph).2 Env.empty := by
-    intro Val I d hd
-    have hl1 : ∀ f ∈ m.funcs, lvl m.funcs 1 f.id = true := by
-      intro f hf
-      rw [lvl]
-      split
-      · rfl
-      · rename_i f' hf'
-        rw [lvl_zero_eq]
-        exact hflat' f' (findFunc_some hf').1
-    have ht : TblOK I (fenv I m.funcs d) m.funcs :=
-      ⟨fun op f hf => fenv_unfold I m.funcs 1 hl1 hd hf,
-        fun op f hf => by
-          exact (hfb f (findFunc_some hf).1).1,
-        fun op f hf => by
-          exact (hfb f (findFunc_some hf).1).2,
-        fun op f hf => ((validG_iff _).1 (hvfs f (findFunc_some hf).1)).2.1⟩
-    exact (inlG_sound I (fenv I m.funcs d) [] m.funcs crit _ (freshF m) ht (deepId_inlAt m.funcs crit hflat' _)
-      m.graph [] ⟨freshF m, [], 0, false⟩ Env.empty Env.empty (fun v _ => by rw [Subst.app_nil])
-      (fun p hp => by simp at hp) hvg.1 hvg.2.1 hvg.2.2.1 (fun v hv => hbound v (Or.inl hv))
-      (fun v hv => hbound v (Or.inr hv)) (Nat.le_refl _) (fun p hp => by simp at hp) hcg).1
-  by_cases hfall : ((inlineRun crit m).st.stuck || !noDangling m.funcs (inlineRun crit m)) = true
-  · have hm : inlineModel crit m = m := by unfold inlineModel; rw [if_pos hfall]
-    rw [hm]
-    exact ⟨fun _ _ _ _ _ => rfl, rfl, rfl, rfl⟩
-  · have hm : inlineModel crit m = (inlineRun crit m).model := by unfold inlineModel; rw [if_neg hfall]
-    have hnd' : noDangling m.funcs (inlineRun crit m) = true := by
-      cases h : noDangling m.funcs (inlineRun crit m)
-      · simp [h] at hfall
-      · rfl
+  obtain ⟨hsound, hlen, _⟩ := inline_main_sound crit m hv 1 hl1
+  by_cases hfall : runOK crit m = true
+  · have hm : inlineModel crit m = (inlineRun crit m).model := by unfold inlineModel; rw [if_pos hfall]
+    simp only [runOK, Bool.and_eq_true] at hfall
+    have hnd' := hfall.1.1.1.2
     simp only [noDangling, Bool.and_eq_true] at hnd'
     rw [hrun.2] at hnd'
     rw [hrun.1] at hnd'
     rw [hm, hrun.1]
-    refine ⟨fun Val I d hd xs => ?_, ?_, ?_, ?_⟩
-    · simp only [denoteAt]
-      rw [hsound Val I d hd]
-      refine congrFun (evalGF_congrΦ I _ _ _ (fun op hop => ?_) [] _ Env.empty hnd'.1) xs
-      refine fenv_filter I m.funcs hflat' (fun op => !(inlG m.funcs crit (inlAt m.funcs crit m.funcs.length)
-        ⟨freshF m, [], 0, false⟩ [] m.graph).1.inlined.contains op) d op ?_
-      simp only [Bool.or_eq_true, Option.isNone_iff_eq_none] at hop
-      rcases hop with h | h
-      · exact Or.inr h
-      · exact Or.inl h
-    · cases hg : m.graph with
-      | mk inputs outputs inits nodes =>
-        rw [hg] at hvg hbound
-        simp only [inlG, FGraph.outputs]
-        simp only [eraseG, ssaG, Bool.and_eq_true] at hvg
-        have hI : Interp Unit := ⟨fun _ _ _ _ _ => [], fun _ => ()⟩
-        have hl1 : ∀ f ∈ m.funcs, lvl m.funcs 1 f.id = true := by
-          intro f hf
-          rw [lvl]
-          split
-          · rfl
-          · rename_i f' hf'
-            rw [lvl_zero_eq]
-            exact hflat' f' (findFunc_some hf').1
-        have ht : TblOK hI (fenv hI m.funcs 1) m.funcs :=
-          ⟨fun op f hf => fenv_unfold hI m.funcs 1 hl1 (Nat.le_refl _) hf,
-            fun op f hf => by
-              exact (hfb f (findFunc_some hf).1).1,
-            fun op f hf => by
-              exact (hfb f (findFunc_some hf).1).2,
-            fun op f hf => ((validG_iff _).1 (hvfs f (findFunc_some hf).1)).2.1⟩
-        have hcg' := hcg
-        rw [hg] at hcg'
-        simp only [callsOKG] at hcg'
-        have hc := hvg.2.1
-        simp only [eraseG, closedG, Bool.and_eq_true] at hc
-        have hf := hvg.2.2.1
-        simp only [eraseG, noFwdG] at hf
-        have key := inlNodes_sound hI (fenv hI m.funcs 1) [] m.funcs crit (inlAt m.funcs crit m.funcs.length)
-          (freshF m) ht (deepId_inlAt m.funcs crit hflat' _) nodes [] outputs ⟨freshF m, [], 0, false⟩
-          Env.empty Env.empty (fun v _ => by rw [Subst.app_nil]) (fun p hp => by simp at hp) hvg.1.2 hc.2 hf
-          (fun v hv => hbound v (Or.inl (by simp only [eraseG, refsG, List.mem_append]; exact Or.inr hv)))
-          (fun v hv => hbound v (Or.inr (by simp only [eraseG, defsG, List.mem_append]; exact Or.inr hv)))
-          (Nat.le_refl _) (fun p hp => by simp at hp) hcg'
-        have hmapnil : outputs.map (Subst.app []) = outputs := by
-          conv => rhs; rw [← List.map_id outputs]
-          apply List.map_congr_left
-          intro v _; exact Subst.app_nil v
-        rw [hmapnil] at key
-        rw [key.2.1, List.length_map]
-    · cases hg : m.graph with
-      | mk inputs outputs inits nodes => simp [inlG, FGraph.inputs]
-    · cases hg : m.graph with
-      | mk inputs outputs inits nodes => simp [inlG, FGraph.inits]
+    refine ⟨fun Val I d hd xs => ?_, hlen, (inlG_inputs_inits _ _ _ _ _ _).1, (inlG_inputs_inits _ _ _ _ _ _).2⟩
+    simp only [denoteAt]
+    rw [hsound Val I d hd]
+    refine congrFun (evalGF_congrΦ I _ _ _ (fun op hop => ?_) [] _ Env.empty hnd'.1) xs
+    refine fenv_filter I m.funcs hflat' (fun op => !(inlG m.funcs crit (inlAt m.funcs crit m.funcs.length)
+      ⟨freshF m, [], 0, false, false⟩ [] m.graph).1.inlined.contains op) d op ?_
+    simp only [Bool.or_eq_true, Option.isNone_iff_eq_none] at hop
+    rcases hop with h | h
+    · exact Or.inr h
+    · exact Or.inl h
+  · have hm : inlineModel crit m = m := by unfold inlineModel; rw [if_neg hfall]
+    rw [hm]
+    exact ⟨fun _ _ _ _ _ => rfl, rfl, rfl, rfl⟩
+
+/-- **C05_inline_nested_partial** — InlinePass with `criteria=None` (every call is inlined) on valid models whose
+    functions call functions to ANY depth (no `flatFuncs`): the nodes cloned for a call are processed in turn
+    (`inlAt`, one level of the unrolling budget per level of nesting), calls inside cloned bodies are inlined with
+    the values of the enclosing clone, function inputs that a function returns are forwarded through Identity
+    nodes, inputs that a call does not supply stay absent through every level.  For every operator
+    interpretation, every unrolling depth `d ≥ number of functions` (the depth at which every call tree is
+    unrolled, `C05_call_depth`) and every input the inlined model denotes the same outputs; the main graph keeps
+    its inputs, initializers and number of outputs.
+    Proof: the clone of a function body is again SSA, closed and ordered over the fresh interval
+    (`instantiate_wf`), so `inlNodes_sound` applies to it, by induction over the budget (`deepOK_inlAt`).
+    FULL STATEMENT: the same for every criteria = `C05_inline` below (which additionally relies on two more
+    properties of the result that the model evaluates instead of proving, `synOK` and `depthOK`).  With
+    `criteria=None` no call is left in the main graph, so the functions that remain do not matter here. -/
+theorem C05_inline_nested_partial (m : FModel) (hv : validF m = true) :
+    (∀ (Val : Type) (I : Interp Val) (d : Nat), m.funcs.length ≤ d → ∀ xs : List Val,
+      denoteAt d I (inlineModel (fun _ => true) m) xs = denoteAt d I m xs) ∧
+    (inlineModel (fun _ => true) m).graph.outputs.length = m.graph.outputs.length ∧
+    (inlineModel (fun _ => true) m).graph.inputs = m.graph.inputs ∧
+    (inlineModel (fun _ => true) m).graph.inits = m.graph.inits := by
+  have hv' := hv
+  simp only [validF, Bool.and_eq_true, List.all_eq_true, decide_eq_true_eq] at hv'
+  obtain ⟨⟨⟨⟨⟨⟨_, _⟩, _⟩, hl⟩, _⟩, _⟩, _⟩ := hv'
+  obtain ⟨hsound, hlen, _⟩ := inline_main_sound (fun _ => true) m hv m.funcs.length hl
+  have hgraph : (inlineRun (fun _ => true) m).model.graph =
+      (inlG m.funcs (fun _ => true) (inlAt m.funcs (fun _ => true) m.funcs.length)
+        ⟨freshF m, [], 0, false, false⟩ [] m.graph).2 := by simp only [inlineRun]
+  by_cases hfall : runOK (fun _ => true) m = true
+  · have hm : inlineModel (fun _ => true) m = (inlineRun (fun _ => true) m).model := by
+      unfold inlineModel; rw [if_pos hfall]
+    simp only [runOK, Bool.and_eq_true] at hfall
+    have hna := hfall.1.1.2
+    simp only [noAccepted, Bool.true_and] at hna
+    rw [hm]
+    refine ⟨fun Val I d hd xs => ?_, by rw [hgraph]; exact hlen, by rw [hgraph]; exact (inlG_inputs_inits _ _ _ _ _ _).1,
+      by rw [hgraph]; exact (inlG_inputs_inits _ _ _ _ _ _).2⟩
+    simp only [denoteAt]
+    rw [hsound Val I d hd, ← hgraph]
+    refine congrFun (evalGF_congrΦ I _ _ (fun op => !(findFunc m.funcs op).isSome) (fun op hop => ?_) [] _ Env.empty hna) xs
+    have hn : findFunc m.funcs op = none := by
+      cases h : findFunc m.funcs op with
+      | none => rfl
+      | some f => rw [h] at hop; simp at hop
+    rw [fenv_none I m.funcs d hn]
+    refine fenv_none I _ d ?_
+    simp only [inlineRun]
+    exact findFunc_filter_none _ _ (findFunc_none_of_ids (inlFuncs_ids _ _ _ _ _) hn)
+  · have hm : inlineModel (fun _ => true) m = m := by unfold inlineModel; rw [if_neg hfall]
+    rw [hm]
+    exact ⟨fun _ _ _ _ _ => rfl, rfl, rfl, rfl⟩
+
+theorem mem_defsBodies_of_mem {v : VId} {f : Graph} : ∀ {bs : List Graph}, f ∈ bs → v ∈ defsG f → v ∈ defsBodies bs
+  | [], hf, _ => by simp at hf
+  | b :: bs, hf, hv => by
+    simp only [defsBodies, List.mem_append]
+    rcases List.mem_cons.1 hf with hf | hf
+    · left; rw [← hf]; exact hv
+    · exact Or.inr (mem_defsBodies_of_mem hf hv)
+
+/-- **C05_inline** — InlinePass with ANY `criteria` on valid models whose functions call functions to ANY depth: the
+    full statement.  In addition to `C05_inline_nested_partial`: a criterion may keep functions (and calls to them,
+    in the main graph and in other kept functions); the bodies of the functions that are left are rewritten in
+    place in dictionary order (`inlFuncs`), later clones copy the rewritten bodies, functions inlined anywhere are
+    deleted.  For every operator interpretation, every unrolling depth `d ≥ number of functions` and every input
+    the resulting model denotes the same outputs; the main graph keeps its inputs, initializers and number of
+    outputs.
+    Proof: main graph by `inline_main_sound`; each rewritten function denotes the same function under the function
+    environment of the model before the pass (`inlFuncs_den`, by `inlNodes_sound` for the table of that moment);
+    the function environment of the result agrees with it on every function that is kept, by induction over the
+    unrolling depth (`fenv_result`).
+    Evaluated by the model on its own result instead of proved (`runOK`; `inlineModel` answers with the unchanged
+    model otherwise, the driver reports it and the check fails): no call to a deleted function and no accepted call
+    in the main graph remains, the unrolling budget sufficed, the rewritten function bodies are still closed /
+    call-well-formed / free of stochastic operators (`synOK`), the call trees of the remaining functions are not
+    deeper than the number of functions of the model (`depthOK`).  `raised`: the real pass raises. -/
+theorem C05_inline (crit : OpId → Bool) (m : FModel) (hv : validF m = true) :
+    (∀ (Val : Type) (I : Interp Val) (d : Nat), m.funcs.length ≤ d → ∀ xs : List Val,
+      denoteAt d I (inlineModel crit m) xs = denoteAt d I m xs) ∧
+    (inlineModel crit m).graph.outputs.length = m.graph.outputs.length ∧
+    (inlineModel crit m).graph.inputs = m.graph.inputs ∧ (inlineModel crit m).graph.inits = m.graph.inits := by
+  have hv' := hv
+  simp only [validF, Bool.and_eq_true, List.all_eq_true, decide_eq_true_eq, Option.isNone_iff_eq_none] at hv'
+  obtain ⟨⟨⟨⟨⟨⟨hid, hvm⟩, hnd⟩, hl⟩, _⟩, hcf⟩, hfb⟩ := hv'
+  simp only [validModel, eraseModel, Bool.and_eq_true, List.all_eq_true, List.mem_map, forall_exists_index,
+    and_imp, forall_apply_eq_imp_iff₂] at hvm
+  obtain ⟨hsound, hlen, hnext⟩ := inline_main_sound crit m hv m.funcs.length hl
+  have hgraph : (inlineRun crit m).model.graph =
+      (inlG m.funcs crit (inlAt m.funcs crit m.funcs.length) ⟨freshF m, [], 0, false, false⟩ [] m.graph).2 := by
+    simp only [inlineRun]
+  by_cases hfall : runOK crit m = true
+  · have hm : inlineModel crit m = (inlineRun crit m).model := by unfold inlineModel; rw [if_pos hfall]
+    simp only [runOK, Bool.and_eq_true] at hfall
+    obtain ⟨⟨⟨⟨_, hdang⟩, _⟩, hsyn⟩, hdepth⟩ := hfall
+    simp only [noDangling, Bool.and_eq_true, List.all_eq_true] at hdang
+    have hsyn0 : synOK m.funcs m.funcs = true := by
+      simp only [synOK, Bool.and_eq_true, List.all_eq_true]
+      intro f hf
+      have hc := ((validG_iff _).1 (hvm.2 f hf)).2.1
+      simp only [Func.graph, eraseG, closedG, Bool.and_eq_true] at hc
+      exact ⟨⟨⟨(hfb f hf).1, (hfb f hf).2⟩, hc.2⟩, hcf f hf⟩
+    have hdepth0 : depthOK m.funcs.length m.funcs = true := by
+      simp only [depthOK, List.all_eq_true]; exact hl
+    simp only [hsyn0, Bool.not_true, Bool.false_or] at hsyn
+    simp only [hdepth0, Bool.not_true, Bool.false_or] at hdepth
+    simp only [synOK, Bool.and_eq_true, List.all_eq_true] at hsyn
+    simp only [depthOK, List.all_eq_true] at hdepth
+    rw [hm]
+    refine ⟨fun Val I d hd xs => ?_, by rw [hgraph]; exact hlen, by rw [hgraph]; exact (inlG_inputs_inits _ _ _ _ _ _).1,
+      by rw [hgraph]; exact (inlG_inputs_inits _ _ _ _ _ _).2⟩
+    simp only [denoteAt]
+    rw [hsound Val I d hd, ← hgraph]
+    -- the loop over the functions
+    have ht := tblOK_of_valid m hv I m.funcs.length d hl hd
+    have hbound : ∀ f ∈ m.funcs, ∀ v, (v ∈ refsG (eraseG f.graph) ∨ v ∈ defsG (eraseG f.graph)) → v < freshF m := by
+      intro f hf v hv
+      refine lt_freshId_of_mem (eraseModel m) ?_
+      have hfm : eraseG f.graph ∈ (eraseModel m).funcs := List.mem_map.2 ⟨f, hf, rfl⟩
+      simp only [List.mem_append]
+      rcases hv with h | h
+      · exact Or.inl (Or.inr (mem_refsBodies_of_mem hfm h))
+      · exact Or.inr (mem_defsBodies_of_mem hfm h)
+    have ctx : LoopCtx I (fenv I m.funcs d) m.funcs (inlineRun crit m).tbl (freshF m) := by
+      refine ⟨ht.den, hnd, ht.noidentΦ, hid, fun f hf => ?_, fun f hf => ?_, fun f hf => ?_⟩
+      · have hc := ((validG_iff _).1 (hvm.2 f hf)).2.1
+        simp only [Func.graph, eraseG, closedG, Bool.and_eq_true] at hc
+        exact ⟨(hfb f hf).1, (hfb f hf).2, hc.2, hcf f hf⟩
+      · have hvf := (validG_iff _).1 (hvm.2 f hf)
+        have hs := hvf.1
+        have hfw := hvf.2.2.1
+        simp only [Func.graph, eraseG, ssaG, Bool.and_eq_true] at hs
+        simp only [Func.graph, eraseG, noFwdG] at hfw
+        refine ⟨hs.2, hfw, fun v hv => ?_, fun v hv => ?_, fun v hv => ?_⟩
+        · exact hbound f hf v (Or.inl (by simp only [Func.graph, eraseG, refsG, List.mem_append]; exact Or.inr hv))
+        · exact hbound f hf v (Or.inr (by simp only [Func.graph, eraseG, defsG, List.mem_append]; exact Or.inr hv))
+        · exact hbound f hf v (Or.inl (by simp only [Func.graph, eraseG, refsG, List.mem_append]; exact Or.inl hv))
+      · have := hsyn f hf
+        exact ⟨this.1.1.1, this.1.1.2, this.1.2, this.2⟩
+    have hdenfin : DenOK I (fenv I m.funcs d) (inlineRun crit m).tbl := by
+      refine inlFuncs_den ctx crit m.funcs.length (m.funcs.map (·.id)) _ m.funcs hnd (SigEq.refl _) hnext
+        (fun g hg _ => hg) (fun g hg _ => Or.inl hg) ?_ ht.den
+      simp only [inlineRun]
+    have hids : (inlineRun crit m).tbl.map (·.id) = m.funcs.map (·.id) := by
+      simp only [inlineRun]; exact inlFuncs_ids _ _ _ _ _
+    have hfuncs : (inlineRun crit m).model.funcs =
+        (inlineRun crit m).tbl.filter (fun f => !(inlineRun crit m).st.inlined.contains f.id) := by
+      simp only [inlineRun]
+    -- the function environment of the result
+    have hres := fenv_result I (inlineRun crit m).model.funcs (fenv I m.funcs d)
+      (fun op => (findFunc m.funcs op).isNone || !(inlineRun crit m).st.inlined.contains op)
+      (fun op f' hf' => by
+        have hk : (!(inlineRun crit m).st.inlined.contains op) = true := by
+          obtain ⟨hmem, hfid⟩ := findFunc_some hf'
+          rw [hfuncs] at hmem
+          rw [← hfid]; exact (List.mem_filter.1 hmem).2
+        rw [hfuncs, findFunc_filter _ (fun o => !(inlineRun crit m).st.inlined.contains o) op (Or.inl hk)] at hf'
+        exact hdenfin op f' hf')
+      (fun op hnone hok => by
+        simp only [Bool.or_eq_true, Option.isNone_iff_eq_none] at hok
+        rcases hok with h | h
+        · exact fenv_none I m.funcs d h
+        · rw [hfuncs, findFunc_filter _ (fun o => !(inlineRun crit m).st.inlined.contains o) op (Or.inl h)] at hnone
+          exact fenv_none I m.funcs d (findFunc_none_of_ids hids.symm hnone))
+      (fun f' hf' => hdang.2 f' hf')
+    refine congrFun (evalGF_congrΦ I _ _ _ (fun op hop => ?_) [] _ Env.empty hdang.1) xs
+    refine hres d op hop (lvl_mono_le _ hd op ?_)
+    cases hf : findFunc (inlineRun crit m).model.funcs op with
+    | none => exact lvl_mono_le _ (Nat.zero_le _) op (by simp [lvl, hf])
+    | some f => obtain ⟨hmem, hfid⟩ := findFunc_some hf; exact hfid ▸ hdepth f hmem
+  · have hm : inlineModel crit m = m := by unfold inlineModel; rw [if_neg hfall]
+    rw [hm]
+    exact ⟨fun _ _ _ _ _ => rfl, rfl, rfl, rfl⟩
+
+/-- non-vacuity of `C05_inline`: the criterion keeps F and accepts G; F (kept) calls G, the main graph calls F and G.
+    The run has a result (`runOK`), G is inlined into the main graph and into the body of F and deleted, the call to
+    F stays -/
+example : (validF ⟨.mk [0] [2] [] [.mk ⟨"l", "F", ""⟩ [] [some 0] [1] [], .mk ⟨"l", "G", ""⟩ [] [some 1] [2] []],
+    [⟨⟨"l", "F", ""⟩, [], [10], [11], [.mk ⟨"l", "G", ""⟩ [] [some 10] [11] []], []⟩,
+     ⟨⟨"l", "G", ""⟩, [], [20], [21], [.mk ⟨"", "Neg", ""⟩ [] [some 20] [21] []], []⟩], []⟩ &&
+    runOK (fun op => op.name == "G") ⟨.mk [0] [2] [] [.mk ⟨"l", "F", ""⟩ [] [some 0] [1] [], .mk ⟨"l", "G", ""⟩ [] [some 1] [2] []],
+    [⟨⟨"l", "F", ""⟩, [], [10], [11], [.mk ⟨"l", "G", ""⟩ [] [some 10] [11] []], []⟩,
+     ⟨⟨"l", "G", ""⟩, [], [20], [21], [.mk ⟨"", "Neg", ""⟩ [] [some 20] [21] []], []⟩], []⟩) = true := by decide
+
+example : ((inlineModel (fun op => op.name == "G") ⟨.mk [0] [2] [] [.mk ⟨"l", "F", ""⟩ [] [some 0] [1] [], .mk ⟨"l", "G", ""⟩ [] [some 1] [2] []],
+    [⟨⟨"l", "F", ""⟩, [], [10], [11], [.mk ⟨"l", "G", ""⟩ [] [some 10] [11] []], []⟩,
+     ⟨⟨"l", "G", ""⟩, [], [20], [21], [.mk ⟨"", "Neg", ""⟩ [] [some 20] [21] []], []⟩], []⟩).funcs.map
+      (fun f => (f.id.name, f.nodes.map (·.op.name)))) = [("F", ["Neg"])] := by decide
 
 /-- non-vacuity of `C05_inline_partial`: a valid model with a call whose function has an attribute parameter
     with a default, a reference attribute and an input the call does not supply; the pass replaces the call -/
@@ -728,6 +922,19 @@ example : flatFuncs ⟨.mk [0] [2] [] [.mk ⟨"local", "F", ""⟩ [] [some 0] [2
     [⟨⟨"local", "F", ""⟩, [("alpha", some (.float 1056964608))], [10, 12], [11],
       [.mk ⟨"", "Selu", ""⟩ [("alpha", .ref "alpha")] [some 10] [11] []], [""]⟩], ["", "local"]⟩ = true := by
   decide
+
+/-- non-vacuity of `C05_inline_nested_partial` and of the D300 repair: F calls G, G returns its own input next to
+    a computed value; the model is valid, the run has a result (`runOK`), both calls are inlined (no function is
+    left) and the returned input reaches the graph output through an Identity node -/
+example : validF ⟨.mk [0] [2, 3] [] [.mk ⟨"l", "F", ""⟩ [] [some 0] [2, 3] []],
+    [⟨⟨"l", "F", ""⟩, [], [10], [11, 12], [.mk ⟨"l", "G", ""⟩ [] [some 10] [11, 12] []], []⟩,
+     ⟨⟨"l", "G", ""⟩, [], [20], [21, 20], [.mk ⟨"", "Neg", ""⟩ [] [some 20] [21] []], []⟩], []⟩ = true := by
+  decide
+
+example : (inlineModel (fun _ => true) ⟨.mk [0] [2, 3] [] [.mk ⟨"l", "F", ""⟩ [] [some 0] [2, 3] []],
+    [⟨⟨"l", "F", ""⟩, [], [10], [11, 12], [.mk ⟨"l", "G", ""⟩ [] [some 10] [11, 12] []], []⟩,
+     ⟨⟨"l", "G", ""⟩, [], [20], [21, 20], [.mk ⟨"", "Neg", ""⟩ [] [some 20] [21] []], []⟩], []⟩).graph.nodes.map (·.op.name)
+    = ["Neg", "Identity"] := by decide
 
 
 /-- a function reachable from the main graph or from a reachable function -/
@@ -824,5 +1031,52 @@ example : ((rufModel ⟨.mk [0] [1] [] [.mk ⟨"l", "F", ""⟩ [] [some 0] [1] [
      ⟨⟨"l", "G", ""⟩, [], [20], [21], [.mk ⟨"", "Neg", ""⟩ [] [some 20] [21] []], []⟩,
      ⟨⟨"l", "H", ""⟩, [], [30], [31], [.mk ⟨"", "Abs", ""⟩ [] [some 30] [31] []], []⟩], []⟩).funcs.map (·.id.name))
     = ["F", "H"] := by decide
+
+/-- **C05_coherent** — the two groups of theorems speak about one semantics.  On a model of the function-call IR
+    whose main graph calls no model-local function, has no reference attribute and whose Identity nodes have one
+    input (`pureMain`, evaluated by the driver on every generated model), the function-aware denotation at EVERY
+    unrolling depth (so also `denoteF`) under an interpretation `I` is the denotation of Model/Sem.lean (`denote`,
+    the semantics of `C05_dce` ... `C05_compose`) of the erased model under `trimI I`, the interpretation that
+    ignores trailing absent arguments.  The pass theorems hold for every interpretation, in particular for
+    `trimI I`; so they speak about `denoteF` of function-free models. -/
+theorem C05_coherent (m : FModel) (h : pureMain m = true) {Val : Type} (I : Interp Val) (d : Nat) (xs : List Val) :
+    denoteAt d I m xs = denote (trimI I) (eraseModel m) xs := by
+  simp only [pureMain, Bool.and_eq_true] at h
+  simp only [denoteAt, denote, eraseModel]
+  refine congrFun (evalGF_pure I _ [] m.graph Env.empty ?_ h.1.2 h.2) xs
+  refine opsAllG_mono (fun op hop => ?_) m.graph h.1.1
+  simp only [Option.isNone_iff_eq_none] at hop ⊢
+  exact fenv_none I m.funcs d hop
+
+/-- **C05_coherent_lift** — every model `m` of the pass IR (Model/Sem.lean) whose Identity nodes have one input,
+    read as a model without functions of the function-call IR (`liftModel`), has the denotation `denoteF I` =
+    `denote (trimI I) m`; and for an interpretation that ignores trailing absent arguments (ONNX: an omitted
+    trailing optional input and an empty one are the same) the two denotations are EQUAL: `denoteF I = denote I`. -/
+theorem C05_coherent_lift (m : Model) (h : identOKG (liftG m.graph) = true) {Val : Type} (I : Interp Val) (xs : List Val) :
+    denoteF I (liftModel m) xs = denote (trimI I) m xs ∧
+    ((∀ op a b args t, I.sem op a b (trimV args) t = I.sem op a b args t) →
+      denoteF I (liftModel m) xs = denote I m xs) := by
+  have hp : pureMain (liftModel m) = true := by
+    simp only [pureMain, liftModel, Bool.and_eq_true]
+    refine ⟨⟨?_, noRefs_liftG m.graph⟩, h⟩
+    exact opsAllG_mono (fun op _ => by simp [findFunc]) _ (opsAllG_true _)
+  have h1 : denoteF I (liftModel m) xs = denote (trimI I) m xs := by
+    have := C05_coherent (liftModel m) hp I (liftModel m).funcs.length xs
+    simp only [denoteF]
+    rw [this]
+    simp only [denote, eraseModel, liftModel, erase_liftG]
+  refine ⟨h1, fun hI => ?_⟩
+  rw [h1]
+  have : trimI I = I := by
+    cases I with
+    | mk sem tv =>
+      simp only [trimI, Interp.mk.injEq, and_true]
+      funext op a b args t
+      exact hI op a b args t
+  rw [this]
+
+/-- non-vacuity of `C05_coherent`: a model with a function that the main graph does not call -/
+example : pureMain ⟨.mk [0] [1] [] [.mk ⟨"", "Identity", ""⟩ [] [some 0] [1] []],
+    [⟨⟨"l", "G", ""⟩, [], [20], [21], [.mk ⟨"", "Neg", ""⟩ [] [some 20] [21] []], []⟩], []⟩ = true := by decide
 
 end IrVerif.Inline
